@@ -21,85 +21,285 @@ PROP = "C01"
 ALIASES = ["ta", "tb", "tc"]
 
 
-# --------------------------------------------------------------------------- real code
-def build_linker(case: dict, api):
-    from splink import Linker, SettingsCreator
-    import splink.comparison_library as cl
+# --------------------------------------------------------------------------- case accessors
+# A case may carry (all optional; absent = the original behaviour):
+#   layout  = {form: frames|names, aliases: [..]|None, labels: [..], own_sd: None|per_table|preconcat, uid_name, sd_name, permute_cols}
+#   steps   = [{op: predict|deterministic_link|em|invalidate|reregister, ...}]   (absent: one step = case["entry"])
+#   rules[i]["form"] = auto|dict|dict_dialect|custom|custom_dialect|tree ;  predict_opts ; retain ; prerender
+def lay(case) -> dict:
+    return case.get("layout") or {}
 
+
+def labels(case) -> list:
+    """The source dataset value of each table of the case (aliases, default aliases or the tables' own column)."""
+    return list(lay(case).get("labels") or ALIASES)[: len(case["tables"])]
+
+
+def multi(case) -> bool:
+    """Splink identifies records by (source dataset, unique id) iff the link type is not dedupe_only."""
+    return case["link_type"] != "dedupe_only"
+
+
+def n_inputs(case) -> int:
+    return 1 if lay(case).get("own_sd") == "preconcat" else len(case["tables"])
+
+
+def uid_name(case) -> str:
+    return lay(case).get("uid_name") or "unique_id"
+
+
+def sd_name(case) -> str:
+    return lay(case).get("sd_name") or "source_dataset"
+
+
+def steps(case) -> list:
+    return case.get("steps") or [{"op": case.get("entry", "predict")}]
+
+
+def rule_text(r) -> str:
+    return bg.sql_top(r["ast"]) if r.get("top_unparenthesised") else bg.sql(r["ast"])
+
+
+def views(case) -> list:
+    """One view per observing step: the tables present at that moment, the rules that produced the pairs, the link type the code
+    blocks with, and the entry point."""
+    out = []
+    tables = case["tables"]
+    for st in steps(case):
+        op = st["op"]
+        if op == "reregister":
+            tables = st["tables"]
+        elif op == "em":
+            out.append({"tables": tables, "rules": [st["rule"]], "lt": case["link_type"], "entry": "em"})
+        elif op in ("predict", "deterministic_link"):
+            out.append({"tables": tables, "rules": case["rules"], "lt": backend_link_type(case), "entry": op})
+    return out
+
+
+# --------------------------------------------------------------------------- real code
+def rule_arg(r: dict, engine: str, for_training=False):
+    """The rule as the user hands it over: bare string / dict (with or without a declared dialect) / CustomRule / a tree of
+    blocking_rule_library creators (block_on, CustomRule, And, Or, Not)."""
+    import splink.internals.blocking_rule_library as brl
+
+    text = rule_text(r)
+    extra = {}
+    if r["kind"] == "salted":
+        extra = {"salting_partitions": r["n"]}
+    elif r["kind"] == "exploding":
+        extra = {"arrays_to_explode": bg.arr_cols(r["ast"]) or ["arr"]}
+    form = r.get("form", "auto")
+    if form == "auto":
+        form = "dict" if extra else "str"
+    if for_training and form in ("dict", "dict_dialect"):
+        form = "custom" if form == "dict" else "custom_dialect"  # the training function takes a string or a creator
+    if form == "str" and not extra:
+        return text
+    if form in ("dict", "str"):
+        return dict({"blocking_rule": text}, **extra)
+    if form == "dict_dialect":
+        return dict({"blocking_rule": text, "sql_dialect": engine}, **extra)
+    if form == "custom":
+        return brl.CustomRule(text, **extra)
+    if form == "custom_dialect":
+        return brl.CustomRule(text, sql_dialect=engine, **extra)
+    if form == "tree":
+        def atom(x, **kw):
+            if x[0] in ("eq", "arr") and (x[0] == "arr" or x[1] == x[2]):
+                return brl.block_on(x[1], **kw)
+            return brl.CustomRule(bg.sql(x), **kw)
+
+        def tree(x, **kw):
+            if x[0] in ("and", "or"):
+                return (brl.And if x[0] == "and" else brl.Or)(tree(x[1]), tree(x[2]), **kw)
+            if x[0] == "not" and not kw:
+                return brl.Not(tree(x[1]))
+            if x[0] == "not":
+                return brl.CustomRule(bg.sql(x), **kw)
+            return atom(x, **kw)
+
+        return tree(r["ast"], **extra)
+    raise ValueError(form)
+
+
+def make_frame(case: dict, rows: list, ti: int, sd_values=None):
+    """One input table as the user presents it: configured id / source dataset column names, optionally its own source dataset
+    column, columns in a per-table order."""
     from harness import impl
 
     idt = "str" if case["idtype"] == "str" else "int"
+    L = lay(case)
     types = {"unique_id": idt, "a": "str", "b": "str", "c": "int"}
-    if any("d" in r for rows in case["tables"] for r in rows):
+    if any("d" in r for rows_ in case["tables"] for r in rows_):
         types["d"] = "str"
-    frames = []
+    order = list(types)
+    if case.get("with_arr"):
+        order += ["arr", "arr2"]
+    if sd_values is not None:
+        order = ["source_dataset"] + order
+        types["source_dataset"] = "str"
+    if L.get("permute_cols"):
+        random.Random(case.get("shuffle", 0) * 31 + ti).shuffle(order)
+    ren = {"unique_id": uid_name(case), "source_dataset": sd_name(case)}
+    rows = [dict(r, source_dataset=sd_values[i]) for i, r in enumerate(rows)] if sd_values is not None else rows
+    if case.get("with_arr"):
+        import pyarrow as pa
+
+        pat = {"str": pa.string(), "int": pa.int64()}
+        cols = {}
+        for c in order:
+            t = pa.list_(pa.string()) if c in ("arr", "arr2") else pat[types[c]]
+            cols[ren.get(c, c)] = pa.array([r.get(c) for r in rows], t)
+        return pa.table(cols)
+    return impl.typed_frame([{ren.get(k, k): r[k] for k in order} for r in rows], {ren.get(k, k): types[k] for k in order})
+
+
+def input_frames(case: dict, tables: list) -> list:
+    """The frames handed to Splink for `tables` (one per input table; ONE for a pre-concatenated input)."""
     rng = random.Random(case.get("shuffle", 0))
-    for rows in case["tables"]:
+    L = lay(case)
+    lab = labels(case)
+    shuffled = []
+    for rows in tables:
         rows = list(rows)
         rng.shuffle(rows)
-        if case.get("with_arr"):
-            import pandas as pd
-            import pyarrow as pa
+        shuffled.append(rows)
+    if L.get("own_sd") == "preconcat":
+        allrows = [(r, lab[ti]) for ti, rows in enumerate(shuffled) for r in rows]
+        rng.shuffle(allrows)
+        return [make_frame(case, [r for r, _ in allrows], 0, [s for _, s in allrows])]
+    if L.get("own_sd") == "per_table":
+        return [make_frame(case, rows, ti, [lab[ti]] * len(rows)) for ti, rows in enumerate(shuffled)]
+    return [make_frame(case, rows, ti) for ti, rows in enumerate(shuffled)]
 
-            tbl = pa.table(
-                {
-                    "unique_id": pa.array([r["unique_id"] for r in rows], pa.string() if idt == "str" else pa.int64()),
-                    "a": pa.array([r["a"] for r in rows], pa.string()),
-                    "b": pa.array([r["b"] for r in rows], pa.string()),
-                    "c": pa.array([r["c"] for r in rows], pa.int64()),
-                    "arr": pa.array([r["arr"] for r in rows], pa.list_(pa.string())),
-                    "arr2": pa.array([r.get("arr2") for r in rows], pa.list_(pa.string())),
-                }
-            )
-            frames.append(tbl)
-        else:
-            frames.append(impl.typed_frame([{k: r[k] for k in types} for r in rows], types))
-    brs = []
+
+def build_linker(case: dict, api, want_names=False):
+    from splink import Linker, SettingsCreator
+    import splink.comparison_library as cl
+
+    frames = input_frames(case, case["tables"])
+    brs, made = [], {}
     for r in case["rules"]:
-        text = bg.sql_top(r["ast"]) if r.get("top_unparenthesised") else bg.sql(r["ast"])
-        if r["kind"] == "salted":
-            brs.append({"blocking_rule": text, "salting_partitions": r["n"]})
-        elif r["kind"] == "exploding":
-            brs.append({"blocking_rule": text, "arrays_to_explode": bg.arr_cols(r["ast"]) or ["arr"]})
-        else:
-            brs.append(text)
-    settings = SettingsCreator(
+        key = json.dumps(r, sort_keys=True, default=str)
+        if key not in made:  # the same rule twice in the same form: the SAME dict / creator object stands twice in the list
+            made[key] = rule_arg(r, case["engine"])
+        brs.append(made[key])
+    L = lay(case)
+    retain = case.get("retain") or [False, False]
+    kw = {}
+    if L.get("uid_name"):
+        kw["unique_id_column_name"] = L["uid_name"]
+    if L.get("sd_name"):
+        kw["source_dataset_column_name"] = L["sd_name"]
+    skw = dict(
         link_type=case["link_type"],
         comparisons=[cl.ExactMatch("a")],
         blocking_rules_to_generate_predictions=brs,
-        retain_matching_columns=False,
-        retain_intermediate_calculation_columns=False,
+        retain_matching_columns=bool(retain[0]),
+        retain_intermediate_calculation_columns=bool(retain[1]),
+        **kw,
     )
+    if case.get("settings_form") == "dict":
+        settings = skw  # a plain settings dictionary holding the creator objects
+        for d in case.get("prerender") or []:
+            SettingsCreator.from_path_or_dict(settings).get_settings(d)
+    else:
+        settings = SettingsCreator(**skw)
+        for d in case.get("prerender") or []:
+            settings.get_settings(d)  # the same settings object already rendered for other dialects
     k = len(frames)
-    if k == 1:
-        return Linker(frames[0], settings, api)
-    return Linker(frames, settings, api, input_table_aliases=ALIASES[:k])
+    if not L:
+        names = ALIASES[:k]
+        linker = Linker(frames[0], settings, api) if k == 1 else Linker(frames, settings, api, input_table_aliases=ALIASES[:k])
+        if k == 1:
+            names = ["__splink__input_table_0"]
+    else:
+        aliases = list(L["aliases"])[:k] if L.get("aliases") else None
+        if L.get("form") == "names":
+            names = [f"phys_{i}" for i in range(k)]
+            for f, nm in zip(frames, names):
+                api.register_table(f, nm)
+            inp = names if k > 1 else (names[0] if case.get("shuffle", 0) % 2 else names)
+        else:
+            names = aliases or [f"__splink__input_table_{i}" for i in range(k)]
+            inp = frames if k > 1 else (frames[0] if case.get("shuffle", 0) % 2 else frames)
+        alias_arg = aliases[0] if aliases and len(aliases) == 1 and L.get("alias_as_str") else aliases
+        linker = Linker(inp, settings, api, **({"input_table_aliases": alias_arg} if aliases else {}))
+    return (linker, names) if want_names else linker
+
+
+class _Stop(Exception):
+    pass
+
+
+def training_block(linker, rule, engine):
+    """The pairs of an EM training session: the public training call, observed at the comparison-vector table it trains on (the
+    session is stopped there: the numerical EM on tiny tables is not this property's subject)."""
+    from splink.internals.em_training_session import EMTrainingSession
+
+    orig = EMTrainingSession._comparison_vectors
+    box = {}
+
+    def recording(self):
+        box["rows"] = orig(self).as_record_dict()
+        raise _Stop()
+
+    EMTrainingSession._comparison_vectors = recording
+    try:
+        linker.training.estimate_parameters_using_expectation_maximisation(rule_arg(rule, engine, for_training=True))
+    except _Stop:
+        pass
+    finally:
+        EMTrainingSession._comparison_vectors = orig
+    if "rows" not in box:
+        raise core.HarnessError("the training call returned without building its comparison vectors")
+    return box["rows"]
 
 
 def run_impl(case: dict) -> dict:
     from harness import impl
 
     api = impl.make_api(case["engine"], threads=2)
-    linker = build_linker(case, api)
-    multi = len(case["tables"]) > 1
+    linker, names = build_linker(case, api, want_names=True)
+    mul = multi(case)
+    un, sn = uid_name(case), sd_name(case)
+    lab0 = labels(case)[0] if case["tables"] else ALIASES[0]
     if case.get("salts") is not None:
         # hand Splink a pre-computed __splink__df_concat_with_tf whose salt column we control
         recs = records(case)
         idt = "str" if case["idtype"] == "str" else "int"
-        types = ({"source_dataset": "str"} if multi else {}) | {"unique_id": idt, "a": "str", "b": "str", "c": "int", "__splink_salt": "float"}
+        types = ({"source_dataset": "str"} if mul else {}) | {"unique_id": idt, "a": "str", "b": "str", "c": "int", "__splink_salt": "float"}
         rows_ = [dict({k: rec[k] for k in types if k != "__splink_salt"}, __splink_salt=s_) for rec, s_ in zip(recs, case["salts"])]
         linker.table_management.register_table_input_nodes_concat_with_tf(impl.typed_frame(rows_, types), overwrite=True)
-    if case.get("entry") == "deterministic_link":
-        rows = linker.inference.deterministic_link().as_record_dict()
-    else:
-        rows = linker.inference.predict().as_record_dict()
-    out = []
-    for r in rows:
-        if multi:
-            out.append((int(r.get("match_key", 0)), (r["source_dataset_l"], r["unique_id_l"]), (r["source_dataset_r"], r["unique_id_r"])))
+    out_views = []
+    for st in steps(case):
+        op = st["op"]
+        if op == "invalidate":
+            linker.table_management.invalidate_cache()
+            continue
+        if op == "reregister":
+            # the SAME names now hold other data (overwrite=True), through the linker or through the database API
+            newf = input_frames(case, st["tables"])
+            for i in st.get("which") or range(len(newf)):
+                if st.get("via") == "api":
+                    api.register_table(newf[i], names[i], overwrite=True)
+                else:
+                    linker.table_management.register_table(newf[i], names[i], overwrite=True)
+            continue
+        if op == "em":
+            rows = training_block(linker, st["rule"], case["engine"])
+        elif op == "deterministic_link":
+            rows = linker.inference.deterministic_link().as_record_dict()
         else:
-            out.append((int(r.get("match_key", 0)), (ALIASES[0], r["unique_id_l"]), (ALIASES[0], r["unique_id_r"])))
-    return {"rows": out}
+            rows = linker.inference.predict(**(st.get("opts") or case.get("predict_opts") or {})).as_record_dict()
+        out = []
+        for r in rows:
+            if mul:
+                out.append((int(r.get("match_key", 0)), (r[sn + "_l"], r[un + "_l"]), (r[sn + "_r"], r[un + "_r"])))
+            else:
+                out.append((int(r.get("match_key", 0)), (lab0, r[un + "_l"]), (lab0, r[un + "_r"])))
+        out_views.append(out)
+    return {"rows": out_views[0] if out_views else [], "views": out_views}
 
 
 run_impl_safe = core.safe(run_impl)
@@ -107,14 +307,13 @@ run_impl_safe = core.safe(run_impl)
 
 # --------------------------------------------------------------------------- model request + oracle
 def backend_link_type(case) -> str:
-    if case["link_type"] == "link_only" and len(case["tables"]) == 2:
+    if case["link_type"] == "link_only" and n_inputs(case) == 2:
         return "two_dataset_link_only"
     return case["link_type"]
 
 
-def records(case):
-    k = len(case["tables"])
-    return bg.concat_records(case["tables"], ALIASES[:k])
+def records(case, tables=None):
+    return bg.concat_records(case["tables"] if tables is None else tables, labels(case))
 
 
 def rule_matrix(rule, recs):
@@ -125,28 +324,29 @@ def rule_matrix(rule, recs):
     return [[code[bg.ev(rule["ast"], recs[l], recs[r])] for r in range(m)] for l in range(m)]
 
 
-def model_request(case):
-    recs = records(case)
-    multi = len(case["tables"]) > 1
-    keys = bg.ranks([bg.composite_key(r, multi) for r in recs])
+def model_request(case, view=None):
+    view = view or views(case)[0]
+    recs = records(case, view["tables"])
+    keys = bg.ranks([bg.composite_key(r, multi(case)) for r in recs])
     sds = bg.ranks([r["source_dataset"] for r in recs])
     rng = random.Random(case.get("shuffle", 0) + 1)
-    salts = [core.f2b(x) for x in case["salts"]] if case.get("salts") is not None else [core.f2b(rng.random()) for _ in recs]
-    rules = [{"kind": r["kind"], "n": r.get("n", 0), "eval": rule_matrix(r, recs)} for r in case["rules"]]
-    return {"op": "block", "lt": backend_link_type(case), "m": len(recs), "key": keys, "sd": sds, "salt": salts, "rules": rules}
+    salts = [core.f2b(x) for x in case["salts"]] if case.get("salts") is not None and len(case["salts"]) == len(recs) else [core.f2b(rng.random()) for _ in recs]
+    rules = [{"kind": r["kind"], "n": r.get("n", 0), "eval": rule_matrix(r, recs)} for r in view["rules"]]
+    return {"op": "block", "lt": view["lt"], "m": len(recs), "key": keys, "sd": sds, "salt": salts, "rules": rules}
 
 
 def rec_id(r):
     return (r["source_dataset"], r["unique_id"])
 
 
-def oracle(case):
+def oracle(case, view=None):
     """Brute force, orientation-free: unordered pair -> (first rule TRUE in the emitted orientation?).
     Returns (must, may): `must[pair] = match_key` for pairs whose first-true rule is the same in both
     orientations (always the case for symmetric rules); `may` = pairs true in exactly one orientation."""
-    recs = records(case)
+    view = view or views(case)[0]
+    recs = records(case, view["tables"])
     m = len(recs)
-    rules = case["rules"] or [{"kind": "plain", "ast": None}]
+    rules = view["rules"] or [{"kind": "plain", "ast": None}]
     lt = case["link_type"]
 
     def first_true(l, r):
@@ -177,8 +377,8 @@ def oracle(case):
     return must, may
 
 
-def verdict(case, rows) -> str | None:
-    must, may = oracle(case)
+def verdict(case, rows, view=None) -> str | None:
+    must, may = oracle(case, view)
     seen = {}
     for mk, l, r in rows:
         key = frozenset([l, r])
@@ -199,6 +399,19 @@ def verdict(case, rows) -> str | None:
     for key in must:
         if key not in seen:
             return f"pair {sorted(key)} satisfies rule {must[key]} (in both orientations) but was not emitted"
+    return None
+
+
+def case_verdict(case, r) -> str | None:
+    """The verdict over every observing step of the case (a plain case has one)."""
+    vs = views(case)
+    got = r.get("views") if r.get("views") is not None else [r["rows"]]
+    if len(got) != len(vs):
+        raise core.HarnessError(f"{len(got)} outputs for {len(vs)} observing steps")
+    for i, (v, rows) in enumerate(zip(vs, got)):
+        w = verdict(case, [(mk, tuple(l), tuple(rr)) for mk, l, rr in rows], v)
+        if w is not None:
+            return w if len(vs) == 1 else f"step {i + 1} of {len(vs)} ({v['entry']}): {w}"
     return None
 
 
@@ -269,6 +482,198 @@ def vector_cases():
     return out
 
 
+# ---- audit families: input layouts and forms, rule forms, options, data values, operation sequences, training blocks
+LABEL_SETS = [["zz", "aa", "mm"], ["a", "a b", "B"], ["d2", "d10", "d1"], ["tb", "ta", "tc"]]   # never in input order = sorted order
+ALIAS_SETS = [["ta", "tb", "tc"], ["zb", "za", "zc"], ["T2", "t10", "t1"], ["q", "p", "r"]]
+RULE_FORMS = ["auto", "dict", "dict_dialect", "custom", "custom_dialect", "tree", "tree"]
+
+
+def gen_rules(rng: random.Random, engine: str, with_arr: bool, nrules=None):
+    """Ordered rule list in which plain, salted AND exploding rules may stand together; each rule in a random input form; now and
+    then the same rule twice, a repeated conjunct, many salting partitions."""
+    nrules = rng.choice([0, 1, 2, 2, 3, 4]) if nrules is None else nrules
+    asym_ok = rng.random() < 0.3
+    rules = []
+    for _ in range(nrules):
+        r = rng.random()
+        kind = "plain"
+        if with_arr and r < 0.4:
+            kind = "exploding"
+        elif engine == "duckdb" and r < 0.7:
+            kind = "salted"
+        if kind == "exploding":
+            ast = bg.gen_rule(rng, depth=1, asym_ok=False, arr=True)
+            if not bg.uses_arr(ast):
+                ast = ("and", ("arr", "arr"), ast) if rng.random() < 0.5 else ("arr", "arr")
+            if rng.random() < 0.25 and ast != ("arr", "arr2"):
+                ast = ("and", ("arr", "arr2"), ast)
+            d = {"kind": kind, "ast": ast}
+        else:
+            ast = bg.gen_rule(rng, depth=2, asym_ok=asym_ok, arr=False)
+            if rng.random() < 0.12:
+                ast = ("and", ast, ast)  # a repeated conjunct
+            d = {"kind": kind, "ast": ast, "top_unparenthesised": rng.random() < 0.6}
+            if kind == "salted":
+                d["n"] = rng.choice([2, 2, 3, 4, 7, 16])
+        d["form"] = rng.choice(RULE_FORMS)
+        rules.append(d)
+    if rules and len(rules) < 4 and rng.random() < 0.15:
+        i = rng.randrange(len(rules))
+        rules.insert(rng.randint(i + 1, len(rules)), dict(rules[i], form=rng.choice(RULE_FORMS)))  # the same rule once more, later in the list
+    return rules
+
+
+def mutate_values(rng: random.Random, c: dict):
+    """Data values the tiny domains lack: empty strings (not NULL), NULL elements inside arrays, negative / empty / mixed-case ids."""
+    done = []
+    if rng.random() < 0.5:
+        done.append("empty_string")
+        for rows in c["tables"]:
+            for r in rows:
+                for col in ("a", "b"):
+                    if r[col] == "zed":
+                        r[col] = ""
+
+        def sub(x):
+            if x[0] == "lit" and x[3] == "zed":
+                return (x[0], x[1], x[2], "")
+            return tuple(sub(y) if isinstance(y, tuple) else y for y in x)
+
+        for ru in c["rules"]:
+            ru["ast"] = sub(ru["ast"])
+    if c.get("with_arr") and rng.random() < 0.5:
+        done.append("null_array_element")
+        for rows in c["tables"]:
+            for r in rows:
+                for col in ("arr", "arr2"):
+                    if r.get(col):
+                        r[col] = [None if rng.random() < 0.3 else x for x in r[col]]
+    if rng.random() < 0.4:
+        done.append("odd_ids")
+        m = {11: -1, 8: -10, "i11": "", "i10": "I1", "i8": "i 8", "i7": "-1"}
+        for rows in c["tables"]:
+            for r in rows:
+                r["unique_id"] = m.get(r["unique_id"], r["unique_id"])
+    if rng.random() < 0.12:
+        col = rng.choice(["a", "b", "c"] + (["arr"] if c.get("with_arr") else []))
+        done.append("all_null_column")
+        for rows in c["tables"]:
+            for r in rows:
+                r[col] = None
+    c["values"] = done
+
+
+def add_layout(rng: random.Random, c: dict, need_names=False):
+    k = len(c["tables"])
+    L = {"form": rng.choice(["frames", "frames", "names"]), "permute_cols": rng.random() < 0.6,
+         "uid_name": rng.choice(["unique_id", "unique_id", "rec_id", "my id"])}
+    if k == 1 and rng.random() < 0.25:
+        # ONE input table that carries its own source dataset column, linked (a single dataset value: link_only admits nothing)
+        c["link_type"] = rng.choice(["link_only", "link_and_dedupe"])
+    if c["link_type"] == "dedupe_only":
+        L["aliases"] = rng.choice([None, ["ta"], ["zz"]])
+        L["labels"] = [ALIASES[0]]
+    else:
+        L["sd_name"] = rng.choice(["source_dataset", "sds"])
+        own = "preconcat" if k == 1 else rng.choice([None, None, "per_table", "preconcat"])
+        L["own_sd"] = own
+        if own:
+            L["labels"] = rng.choice(LABEL_SETS)[:k]
+            L["aliases"] = rng.choice([None, ["p", "q", "r"]])
+            if L["aliases"]:
+                L["aliases"] = L["aliases"][: 1 if own == "preconcat" else k]
+        else:
+            L["aliases"] = rng.choice([None] + ALIAS_SETS)
+            L["labels"] = L["aliases"][:k] if L["aliases"] else [f"__splink__input_table_{i}" for i in range(k)]
+            L["aliases"] = L["aliases"][:k] if L["aliases"] else None
+    L["alias_as_str"] = rng.random() < 0.5
+    if need_names and L["form"] == "frames" and not L["aliases"]:
+        L["form"] = "names"  # a table that is to be replaced under its name must have a name the caller knows
+    c["layout"] = L
+
+
+def predict_opts(rng: random.Random, p: float) -> dict:
+    """Non-default arguments of predict() that must not change the set of scored pairs (a threshold of 0 keeps every pair)."""
+    o = {k: False for k in ("materialise_blocked_pairs", "materialise_after_computing_term_frequencies") if rng.random() < p}
+    if rng.random() < p / 2:
+        o["threshold_match_probability"] = rng.choice([0, 0.0])
+    return o
+
+
+def gen_layout_case(rng: random.Random, tag="layout", need_names=False, force_arr=False):
+    engine = "duckdb" if force_arr else rng.choice(["duckdb", "duckdb", "sqlite"])
+    k = rng.choice([1, 2, 2, 3])
+    with_arr = engine == "duckdb" and (force_arr or rng.random() < 0.4)
+    idtype = rng.choice(["int", "int", "str"])
+    c = {
+        "engine": engine, "link_type": "dedupe_only" if k == 1 else rng.choice(["link_only", "link_only", "link_and_dedupe"]),
+        "tables": bg.gen_tables(rng, k, max_rows=rng.choice([3, 5, 8]), idtype=idtype, with_arr=with_arr),
+        "rules": gen_rules(rng, engine, with_arr), "idtype": idtype, "with_arr": with_arr, "shuffle": rng.randrange(1 << 30), "tag": tag,
+    }
+    while force_arr and not any(r["kind"] == "exploding" for r in c["rules"]):
+        c["rules"] = gen_rules(rng, engine, with_arr, nrules=rng.choice([1, 2, 3]))
+    c["entry"] = "predict" if rng.random() < 0.75 or not c["rules"] else "deterministic_link"
+    add_layout(rng, c, need_names)
+    mutate_values(rng, c)
+    c["predict_opts"] = predict_opts(rng, 0.4)
+    c["settings_form"] = rng.choice(["creator", "creator", "dict"])
+    c["retain"] = [rng.random() < 0.5, rng.random() < 0.3]
+    if rng.random() < 0.3:
+        c["prerender"] = rng.choice([["sqlite"], ["duckdb"], ["spark", "sqlite"], [engine, engine]])
+    return c
+
+
+def gen_em_rule(rng: random.Random):
+    ast = bg.gen_rule(rng, depth=rng.choice([0, 1, 2]), asym_ok=rng.random() < 0.25, arr=False)
+    d = {"kind": "plain", "ast": ast, "top_unparenthesised": rng.random() < 0.6, "form": rng.choice(["auto", "custom", "custom_dialect", "tree"])}
+    if rng.random() < 0.3:
+        d.update(kind="salted", n=rng.choice([2, 3, 7]))
+    return d
+
+
+def gen_em_case(rng: random.Random):
+    """The pairs an EM training session trains on (one rule, the linker's link type, the same identities)."""
+    c = gen_layout_case(rng, tag="em")
+    c["steps"] = [{"op": "em", "rule": gen_em_rule(rng)}]
+    c["entry"] = "em"
+    return c
+
+
+def gen_seq_case(rng: random.Random):
+    """Several calls on ONE linker / ONE database API: repeated and alternating entry points, invalidate_cache, a training
+    session in between, and input tables replaced under their names (overwrite=True) followed by the same call again."""
+    c = gen_layout_case(rng, tag="seq", need_names=True)
+
+    def obs():
+        r = rng.random()
+        if r < 0.6 or not c["rules"]:
+            return {"op": "predict", "opts": predict_opts(rng, 0.3)}
+        if r < 0.85:
+            return {"op": "deterministic_link"}
+        return {"op": "em", "rule": gen_em_rule(rng)}
+
+    st = [obs()]
+    tables = c["tables"]
+    for _ in range(rng.choice([1, 1, 2])):
+        r = rng.random()
+        if r < 0.6:
+            k = len(tables)
+            new = bg.gen_tables(rng, k, max_rows=rng.choice([3, 5, 8]), idtype=c["idtype"], with_arr=c["with_arr"])
+            which = sorted(rng.sample(range(k), rng.randint(1, k))) if lay(c).get("own_sd") != "preconcat" else [0]
+            if lay(c).get("own_sd") != "preconcat":
+                new = [new[i] if i in which else tables[i] for i in range(k)]
+            tables = new
+            st.append({"op": "reregister", "tables": tables, "which": which, "via": rng.choice(["linker", "api"])})
+            if rng.random() < 0.3:
+                st.append({"op": "invalidate"})
+        elif r < 0.75:
+            st.append({"op": "invalidate"})
+        st.append(obs() if rng.random() < 0.5 else dict(st[0]))  # often literally the same call again
+    c["steps"] = st
+    c["entry"] = "+".join(x["op"] for x in st)
+    return c
+
+
 def gen_cases(ctx):
     rng = ctx.rng
     cases = vector_cases()
@@ -284,6 +689,16 @@ def gen_cases(ctx):
         c["rules"] = rng.choice([[two], plain + [two], [two] + plain])
         c["tag"] = "explode2"
         cases.append(c)
+    # audit families (see the generators above)
+    for _ in range(ctx.budget(115, 1800)):
+        cases.append(gen_layout_case(rng))
+    # exploding rules build their pairs from their own unnested copy of the inputs: cross them with every layout
+    for _ in range(ctx.budget(30, 300)):
+        cases.append(gen_layout_case(rng, tag="explode_layout", force_arr=True))
+    for _ in range(ctx.budget(60, 600)):
+        cases.append(gen_seq_case(rng))
+    for _ in range(ctx.budget(50, 600)):
+        cases.append(gen_em_case(rng))
     if ctx.thorough:
         for _ in range(30):
             c = gen_case(rng, engine="spark")
@@ -298,8 +713,58 @@ def gen_cases(ctx):
 
 
 # --------------------------------------------------------------------------- comparison
+CASE_KEYS = ("tables", "rules", "link_type", "engine", "entry", "layout", "steps", "predict_opts", "prerender", "retain", "settings_form")
+
+
+def count_inputs(ctx, c, vs, reqs_c, musts):
+    recs = records(c)
+    must = musts[0] if musts else {}
+    L = lay(c)
+    null_outcome = any(2 in row for req in reqs_c for ru in req["rules"] for row in ru["eval"])
+    kinds = sorted({ru["kind"] for ru in c["rules"]})
+    asym = any(not bg.symmetric(ru["ast"]) for ru in c["rules"])
+    ctx.count("tag", c["tag"].rstrip("01234")); ctx.count("engine", c["engine"]); ctx.count("link_type", backend_link_type(c))
+    ctx.count("n_rules", len(c["rules"])); ctx.count("n_records", len(recs) if len(recs) < 6 else "6-12" if len(recs) <= 12 else ">12")
+    ctx.count("rule_kinds", "+".join(kinds) or "none"); ctx.count("max_exploded_columns_in_a_rule", max([len(bg.arr_cols(ru["ast"])) for ru in c["rules"] if ru["kind"] == "exploding"] or [0])); ctx.count("has_null_outcome", null_outcome); ctx.count("asymmetric_rule", asym)
+    ctx.count("pairs_expected", len(must) if len(must) < 4 else "4-15" if len(must) <= 15 else ">15")
+    for v in vs:
+        ctx.count("entry", v["entry"])
+    # the audit families' dimensions
+    ctx.count("input_form", (L.get("form") or "frames") + ("+aliases" if (L.get("aliases") or (not L and len(c["tables"]) > 1)) else "+default_aliases"))
+    lab = labels(c)
+    ctx.count("source_dataset_values", "n/a (dedupe_only)" if not multi(c) else ("own column, " if L.get("own_sd") else "aliases, ") + ("in sorted order" if lab == sorted(lab) else "NOT in sorted order"))
+    ctx.count("own_source_dataset_column", L.get("own_sd") or "no")
+    ctx.count("unique_id_column_name", uid_name(c)); ctx.count("source_dataset_column_name", sd_name(c) if multi(c) else "n/a")
+    ctx.count("columns_in_per_table_order", bool(L.get("permute_cols")))
+    for ru in c["rules"] + [st["rule"] for st in steps(c) if st["op"] == "em"]:
+        ctx.count("rule_form", ru.get("form", "auto"))
+        if ru["kind"] == "salted":
+            ctx.count("salting_partitions", ru["n"])
+    texts = [(ru["kind"], rule_text(ru)) for ru in c["rules"]]
+    ctx.count("same_rule_twice_in_list", len(set(texts)) < len(texts))
+    ctx.count("predict_options", "+".join(sorted({o for st in steps(c) if st["op"] == "predict" for o in (st.get("opts") or c.get("predict_opts") or {})})) or "defaults")
+    ctx.count("settings_given_as", c.get("settings_form") or "creator")
+    ctx.count("retain_flags", str([bool(x) for x in (c.get("retain") or [False, False])]))
+    ctx.count("settings_prerendered_for", "+".join(c.get("prerender") or []) or "no")
+    for vname in c.get("values") or ["none"]:
+        ctx.count("special_values", vname)
+    ops = [st["op"] for st in steps(c)]
+    ctx.count("observing_steps_per_case", len(vs))
+    if len(ops) > 1:
+        ctx.count("step_sequence", ">".join(ops))
+        ctx.count("reregistered_then_same_call_again", any(ops[i] == "reregister" and any(o in ("predict", "deterministic_link", "em") for o in ops[i + 1:]) for i in range(len(ops))))
+        for st in steps(c):
+            if st["op"] == "reregister":
+                ctx.count("reregister_via", st.get("via", "linker"))
+
+
 def compare(ctx, cases, drv):
-    reqs = [model_request(c) for c in cases]
+    allviews = [views(c) for c in cases]
+    reqs, owner = [], []
+    for ci, (c, vs) in enumerate(zip(cases, allviews)):
+        for v in vs:
+            reqs.append(model_request(c, v))
+            owner.append(ci)
     spark = [i for i, c in enumerate(cases) if c["engine"] == "spark"]
     par = [i for i, c in enumerate(cases) if c["engine"] != "spark"]
     res = [None] * len(cases)
@@ -307,37 +772,44 @@ def compare(ctx, cases, drv):
         res[i] = r
     for i in spark:
         res[i] = run_impl_safe(cases[i])
-    mres = drv.pbatch(reqs)
+    mres_flat = drv.pbatch(reqs)
+    by_case_req = [[] for _ in cases]
+    by_case_m = [[] for _ in cases]
+    for ci, rq, m in zip(owner, reqs, mres_flat):
+        by_case_req[ci].append(rq)
+        by_case_m[ci].append(m)
     problems = []
-    for c, req, r, m in zip(cases, reqs, res, mres):
+    for c, vs, reqs_c, r, ms in zip(cases, allviews, by_case_req, res, by_case_m):
         recs = records(c)
-        must, may = oracle(c)
-        null_outcome = any(2 in row for ru in req["rules"] for row in ru["eval"])
-        kinds = sorted({ru["kind"] for ru in c["rules"]})
-        asym = any(not bg.symmetric(ru["ast"]) for ru in c["rules"])
-        ctx.case({k: c[k] for k in ("tables", "rules", "link_type", "engine", "entry")}, bool(must) and len(c["rules"]) >= 1,
-                 sample={"case": {k: c[k] for k in ("tables", "rules", "link_type", "engine", "entry", "tag")}, "impl_rows": r.get("rows") if isinstance(r, dict) else None} if len(recs) <= 4 else None)
-        ctx.count("tag", c["tag"].rstrip("01234")); ctx.count("engine", c["engine"]); ctx.count("link_type", backend_link_type(c))
-        ctx.count("n_rules", len(c["rules"])); ctx.count("n_records", len(recs) if len(recs) < 6 else "6-12" if len(recs) <= 12 else ">12")
-        ctx.count("rule_kinds", "+".join(kinds) or "none"); ctx.count("max_exploded_columns_in_a_rule", max([len(bg.arr_cols(ru["ast"])) for ru in c["rules"] if ru["kind"] == "exploding"] or [0])); ctx.count("has_null_outcome", null_outcome); ctx.count("asymmetric_rule", asym)
-        ctx.count("entry", c["entry"]); ctx.count("pairs_expected", len(must) if len(must) < 4 else "4-15" if len(must) <= 15 else ">15")
+        musts = [oracle(c, v)[0] for v in vs]
+        canon = {k: c[k] for k in CASE_KEYS if k in c}
+        ctx.case(canon, any(bool(mu) and len(v["rules"]) >= 1 for mu, v in zip(musts, vs)),
+                 sample={"case": dict(canon, tag=c["tag"]), "impl_rows": r.get("rows") if isinstance(r, dict) else None} if len(recs) <= 4 else None)
+        count_inputs(ctx, c, vs, reqs_c, musts)
         if core.impl_error(r):
             ctx.count("impl_error", r["__error__"])
-            problems.append((c, f"real code raised {r['__error__']}: {r['text'][:300]}", True))
+            problems.append((c, f"real code raised {r['__error__']}: {r['text'][:300]} ... {r['text'][-400:] if len(r['text']) > 700 else ''}", True))
             continue
-        if "error" in m:
-            raise core.HarnessError("model driver error: " + m["error"])
-        v = verdict(c, r["rows"])
+        for m in ms:
+            if "error" in m:
+                raise core.HarnessError("model driver error: " + m["error"])
+        v = case_verdict(c, r)
         if v is not None:
             problems.append((c, v, True))
             continue
-        ids = [rec_id(x) for x in recs]
-        mrows = sorted((mk, ids[l], ids[rr]) for mk, l, rr in m["rows"])
-        irows = sorted(r["rows"])
-        if mrows != irows:
-            extra = [x for x in irows if x not in mrows][:3]
-            missing = [x for x in mrows if x not in irows][:3]
-            problems.append((c, f"emitted (match_key,l,r) rows differ from Lean model Blocking.block: impl-only {extra} model-only {missing}", False))
+        got = r.get("views") if r.get("views") is not None else [r["rows"]]
+        bad = None
+        for vi, (vw, m, rows) in enumerate(zip(vs, ms, got)):
+            ids = [rec_id(x) for x in records(c, vw["tables"])]
+            mrows = sorted((mk, ids[l], ids[rr]) for mk, l, rr in m["rows"])
+            irows = sorted((mk, tuple(l), tuple(rr)) for mk, l, rr in rows)
+            if mrows != irows:
+                extra = [x for x in irows if x not in mrows][:3]
+                missing = [x for x in mrows if x not in irows][:3]
+                bad = f"emitted (match_key,l,r) rows differ from Lean model Blocking.block (step {vi + 1}, {vw['entry']}): impl-only {extra} model-only {missing}"
+                break
+        if bad:
+            problems.append((c, bad, False))
             continue
         ctx.traces_validated += 1
     return problems
@@ -376,7 +848,21 @@ def impl_fails(case):
     r = run_impl_safe(case)
     if "__error__" in r:
         return True
-    return verdict(case, r["rows"]) is not None
+    return case_verdict(case, r) is not None
+
+
+def observed_failure(case, rr) -> str | None:
+    if "__error__" in rr:
+        t = rr["text"]
+        return f"real code raised {rr['__error__']}: {t[:300]} ... {t[-400:] if len(t) > 700 else ''}"
+    return case_verdict(case, rr)
+
+
+def same_failure(case, cls) -> bool:
+    """Shrinking keeps the KIND of failure (a smaller input that fails differently is another finding)."""
+    case = normalise(case)
+    w = observed_failure(case, run_impl_safe(case))
+    return w is not None and failure_class(case, w)["failure"] == cls["failure"] and failure_class(case, w).get("error") == cls.get("error")
 
 
 def normalise(case):
@@ -387,6 +873,8 @@ def normalise(case):
 
     c = dict(case)
     c["rules"] = [dict(r, ast=tup(r["ast"])) for r in case["rules"]]
+    if case.get("steps"):
+        c["steps"] = [dict(st, rule=dict(st["rule"], ast=tup(st["rule"]["ast"]))) if st["op"] == "em" else st for st in case["steps"]]
     return c
 
 
@@ -399,9 +887,26 @@ def classify(what: str) -> str:
     return what.split(":")[0]
 
 
+def error_signature(what: str) -> str:
+    """The kind of a raised error without the case's specifics (hashes, values), so that different errors are reported separately."""
+    import re
+
+    if "real code raised" not in what:
+        return ""
+    kind = what.split("real code raised ", 1)[1].split(":", 1)[0]
+    tail = what.rsplit("Error was:", 1)[1] if "Error was:" in what else what.split(":", 1)[1]
+    tail = re.sub(r"_[0-9a-f]{9}\b", "", tail)
+    tail = re.sub(r"LINE \d+:.*", "", tail, flags=re.S)
+    tail = " ".join(tail.split())[:90]
+    return f"{kind}: {tail}"
+
+
 def failure_class(case, what: str) -> dict:
     salted_or = any(r["kind"] == "salted" and r["ast"][0] == "or" for r in case["rules"])
-    return {"failure": classify(what), "salted_top_level_or": salted_or}
+    out = {"failure": classify(what), "salted_top_level_or": salted_or}
+    if error_signature(what):
+        out["error"] = error_signature(what)
+    return out
 
 
 def run(ctx: core.Ctx):
@@ -410,10 +915,18 @@ def run(ctx: core.Ctx):
         "columns from tiny domains with NULL rate 0-40%, int/str ids overlapping across tables, link types x ordered rule lists of length 0-4 over "
         "eq/substr/literal/</AND/OR/NOT (30% with asymmetric atoms), rules optionally salted 2-4 (duckdb) or exploding an array column (duckdb), "
         "rule text with or without parentheses around a top-level OR/AND; entry = predict (80%) or deterministic_link. "
-        "non-trivial = at least one admissible pair satisfies a rule; distinct = hash of (tables, rules, link type, engine, entry)."
+        "Audit families: `layout` (and `explode_layout`: at least one exploding rule) = the same generator presented through other input layouts and forms (frames / names of registered tables, explicit aliases in "
+        "non-sorted order or default aliases, tables carrying their own source dataset column, ONE pre-concatenated table, configured unique id / source dataset "
+        "column names, columns in a per-table order), rules handed over as string / dict / dict with dialect / CustomRule / creator trees (block_on, And, Or, Not), "
+        "plain + salted + exploding rules in one list, the same rule twice, repeated conjuncts, 2-16 salting partitions, predict() materialisation flags, retain flags, "
+        "a settings object already rendered for other dialects, empty strings, NULL array elements, negative / empty / mixed-case ids; `seq` = 2-3 observed calls on one "
+        "linker (predict / deterministic_link / training block, invalidate_cache, input tables replaced under their names with overwrite=True, then the same call again), "
+        "every output checked against the data present at that moment; `em` = the pairs an EM training session trains on (observed at its comparison-vector table). "
+        "non-trivial = at least one admissible pair satisfies a rule; distinct = hash of (tables, rules, link type, engine, entry, layout, steps, options)."
     )
     ctx.assumptions = [
         "composite ids distinct (WFKeys): no source-dataset alias contains '-__-', unique ids distinct within a table",
+        "one linker per DatabaseAPI (K1); salted prediction rules only on DuckDB/Spark (documented scope of salting)",
         "rule outcomes are computed by the harness's own 3-valued evaluator for the generated grammar (engine expression semantics trusted for atoms)",
         "for rules asymmetric in l/r only uniqueness and the two-sided bound are required (property statement)",
     ]
@@ -431,7 +944,7 @@ def run(ctx: core.Ctx):
     if (not ctx.lean.ok or any(not conc for _, _, conc in problems)) and not ctx.replay:
         ctx.notes.append("proof or correspondence broke: ran the widened failing-input search")
         rng2 = random.Random(ctx.seed + 7919)
-        more = [gen_case(rng2) for _ in range(2500)]
+        more = [gen_case(rng2) for _ in range(2500)] + [gen_layout_case(rng2) for _ in range(400)] + [gen_seq_case(rng2) for _ in range(150)] + [gen_em_case(rng2) for _ in range(150)]
         problems += compare(ctx, more, drv)
     concrete = [(c, w) for c, w, conc in problems if conc]
     broken = [(c, w) for c, w, conc in problems if not conc]
@@ -442,12 +955,12 @@ def run(ctx: core.Ctx):
         if keyc in reported or len(reported) >= 4:
             continue
         reported.add(keyc)
-        small = normalise(shrink(c, impl_fails))
+        small = normalise(shrink(c, lambda cand, cls=cls: same_failure(cand, cls)))
         rr = run_impl_safe(small)
-        what = (verdict(small, rr["rows"]) if "rows" in rr else f"real code raised {rr['__error__']}: {rr['text'][:200]}") or w
+        what = observed_failure(small, rr) or w
         must, may = oracle(small)
-        ctx.violation("real output violates C01: " + cls["failure"] + (" [salted rule with top-level OR]" if cls["salted_top_level_or"] else ""),
-                      {"case": small, "rule_sql": [bg.sql_top(r["ast"]) if r.get("top_unparenthesised") else bg.sql(r["ast"]) for r in small["rules"]],
+        ctx.violation("real output violates C01: " + cls["failure"] + (" [salted rule with top-level OR]" if cls["salted_top_level_or"] else "") + (f" [{cls['error']}]" if cls.get("error") else ""),
+                      {"case": small, "rule_sql": [rule_text(r) for r in small["rules"]],
                        "observed": rr, "expected_pairs": [[sorted(map(list, k)), v] for k, v in must.items()], "detail": what},
                       kind="concrete", match_info=failure_class(small, what))
     if not concrete:
